@@ -14,6 +14,7 @@ import (
 	"fmt"
 	"io"
 	"runtime"
+	"runtime/debug"
 	"runtime/metrics"
 
 	"gitlab.com/gomidi/midi/v2/internal/verifh/engine"
@@ -495,6 +496,53 @@ func truncationFamily(first int) {
 	}
 }
 
+// deepInputs: inputs made of very many small units (unknown chunks, empty
+// tracks, tiny events), read with the goroutine stack limited to 16 MiB: any
+// recursion whose depth grows with the input overflows the stack, which is a
+// fatal error of the worker process (reported as fatal:...:stack-overflow).
+func deepInputs() {
+	debug.SetMaxStack(16 << 20)
+	const n = 400000
+	alien := refsmf.Chunk("XXXX", nil)
+	var many []byte
+	many = append(many, hdr(1, 1, 96)...)
+	for i := 0; i < n; i++ {
+		many = append(many, alien...)
+	}
+	many = append(many, refsmf.Chunk("MTrk", []byte{0x00, 0xFF, 0x2F, 0x00})...)
+	o := read(many)
+	ctx.Eval()
+	if o.c.Panicked || o.err != nil {
+		report2("deep:alien-chunks", fmt.Sprintf("%d empty unknown chunks before the track: %v %s", n, o.err, o.c.Value))
+	}
+	// many events, many meta events, many tracks
+	var body []byte
+	for i := 0; i < n; i++ {
+		body = append(body, 0x00, 0x90, 0x3C, 0x40, 0x00, 0xFF, 0x01, 0x00)
+	}
+	body = append(body, 0x00, 0xFF, 0x2F, 0x00)
+	ev := append(hdr(0, 1, 96), refsmf.Chunk("MTrk", body)...)
+	o = read(ev)
+	ctx.Eval()
+	if o.c.Panicked || o.err != nil {
+		report2("deep:events", fmt.Sprintf("%d events in one track: %v %s", 2*n, o.err, o.c.Value))
+	}
+	tr := hdr(1, 65535, 96)
+	for i := 0; i < 65535; i++ {
+		tr = append(tr, refsmf.Chunk("MTrk", []byte{0x00, 0xFF, 0x2F, 0x00})...)
+	}
+	o = read(tr)
+	ctx.Eval()
+	if o.c.Panicked || o.err != nil {
+		report2("deep:tracks", fmt.Sprintf("65535 tracks: %v %s", o.err, o.c.Value))
+	}
+	ctx.Add("deep_inputs", 3)
+}
+
+func report2(sig, what string) {
+	ctx.Violation(sig, map[string]interface{}{"kind": "deep", "what": what})
+}
+
 func main() {
 	ctx = engine.Start("C05", "fault_enumeration")
 	if ctx.ReplayPath != "" {
@@ -508,6 +556,7 @@ func main() {
 	ctx.Jobs("strings-whole-file", len(alphabet)+7, func(j int) { strings2(j, 4) })
 	ctx.Jobs("header-fields", 16, func(j int) { headerFields(j, 16) })
 	ctx.Jobs("substitutions", 32, func(j int) { substitutions(j, 32) })
+	ctx.Jobs("deep-inputs", 1, func(int) { deepInputs() })
 	nal := len(smfgen.Tokens()) * 4
 	ctx.Jobs("truncations", nal, func(j int) { truncationFamily(j) })
 	ctx.Sample(map[string]interface{}{"truncation": "every proper prefix of: MThd fmt0 1trk div96 | MTrk 0:NoteOn0 128:Text128 128:EOT", "check": "error, or tracks are event-for-event prefixes"})
